@@ -7,23 +7,31 @@ ENGINE = {'name': 'udp',
  'check': 'check',
  'imports': ['From L4.model Require Import Udp.'],
  'n_quick': 90,
- 'n_thorough': 1500,
+ 'n_thorough': 900,
  'timeout': 900,
+ 'timeout_thorough': 1500,
  'shard': 12,
  'serves': ['C09'],
  'rule': 'scenarios: a corpus (handler that never reads then returns while the loop is blocked in its send; 40-datagram burst to a handler that '
          'returns at once; idle expiry followed by a late Close; read-once handlers followed by later datagrams; four interleaved clients with '
          'jumbo datagrams read through small buffers, scripted and over real loopback sockets; backpressure count) plus random scenarios: 1-4 '
          'client addresses sharing one IP, 2-80 datagrams of 16..9000 bytes in a random interleaving, per-client handler kinds echo / read n '
-         'and return / return immediately / stall until released / idle out, optional waits for an association to end; every scenario runs '
-         'in a child process; a case is the complete event log of one scenario; non-trivial = some client had two associations, or one '
-         'association read at least two datagrams and ended; distinct = distinct event logs',
+         'and return / return immediately / stall until released / idle out, optional waits for an association to end; every third random '
+         'scenario is sequential (each action waits for the visible effect of the previous one) and its log is additionally replayed step by '
+         'step through the model\'s exec function; every scenario runs in a child process; a case is the complete event log of one scenario; '
+         'non-trivial = some client had two associations, or one association read at least two datagrams and ended; distinct = distinct event logs',
  'trusted_base': ['the scripted net.PacketConn / loopback sockets and the recording handler of harness/overlay/layer4/c09_udp_test.go; the log order is '
                   'the order in which goroutines took the log mutex',
-                  'idle expiry is provoked by resetting the association\'s own idle timer to 1 ms from the test (the 30 s constant is not configurable)'],
+                  'idle expiry is provoked by resetting the association\'s own idle timer to 1 ms from the test (the 30 s constant is not configurable)',
+                  'tools/l4gen shapeUDP: recognises the statements of packetConn.Close, the channel capacities, the select around the loop\'s send, the '
+                  'isClosed test and the identity-checked delete by syntax; a statement it does not recognise becomes COther and breaks C09_src_shape_ok'],
  'modelled': ['layer4/server.go: Server.servePacket (reader goroutine, select loop, udpConns, closeCh), packetConn.Read / Write / Close, channel capacities and the '
               'statement order of Close taken from the source by tools/l4gen',
-              'not modelled: SetReadDeadline arithmetic (C05), udpBufPool buffer identity (C08), what handlers do with the bytes'],
+              'acceptance conditions evaluated on the recorded logs: own_ok, order_ok, fresh_ok (when notifications identify the association) are proved to hold for every execution of the model '
+              '(C09_accept_*), as is causal_ok; nodup_ok, grouped_ok, chunks_ok are evaluated but not proved to be necessary',
+              'not modelled: SetReadDeadline arithmetic (C05), udpBufPool buffer identity (C08), what handlers do with the bytes, zero-length datagrams '
+              '(Read returns io.EOF for them without notifying the loop)'],
  'assumptions': ['Go scheduler = arbitrary interleaving of the model\'s atomic steps (channel operations, one Close statement at a time)',
                  'a handler calls Close once (Server.handle does), Read and Close may overlap',
-                 'datagram identities in an execution are distinct (the engine numbers them)']}
+                 'datagram identities in an execution are distinct (the engine numbers them)',
+                 'liveness is not claimed: a handler that stops reading blocks the loop after cap(readCh)+1+cap(packets)+1 datagrams (measured by the backpressure case)']}
